@@ -69,7 +69,7 @@ CLAIMS = {
  "C06": dict(
    text="Proof (Verus): randomize's jitter window and dependence on a fresh RNG draw, is_user classification, one exchange per request (none on construction failure), transport error only without response, "
         "HttpStatus error iff non-2xx, pings and event reports sent at most once; the attempt loop of perform_update_check is bounded by 3 with verified safety obligations, "
-        "and every attempt is sent with a request id drawn after the previous exchange (never the id of an earlier attempt).",
+        "every attempt is sent with a request id drawn after the previous exchange (never the id of an earlier attempt), and a check whose exchange failed always ends by reporting the requests-per-check metric.",
    note=SMNOTE + "Request-id freshness uses a ghost tag on GUID::new() (the number of exchanges made so far) that is consistent exactly under the assumption that uuid v4 draws never repeat. The full retry-condition table of the attempt loop is not a named obligation.",
    technique="contract-based deductive verification (Verus) with ghost interaction logs", design="4/C06"),
  "C07": dict(
